@@ -309,7 +309,7 @@ def r19b(P, R):
                 bases = {(_strip(e["recv"]).get("local"),) for e in es}
                 record = ({k: e["method"] for (k, _), e in zip(comps, es)}, len(bases) == 1, g)
     # how it is freed: argument i of String::from_raw_parts <- component
-    frees = [(f, x) for f, kind, c, x in unsafe_ops(P) if c == STR_FRP and f.crate == LC and only_via(P, f.path, {drop.path})]
+    frees = [(f, x) for f, kind, c, x in unsafe_ops(P) if c == STR_FRP and f.crate == LC and only_via(P, f.path, ld.owner_drops)]
     R.floor("R19-b", "reconstruction of the recorded buffers (reachable only from Drop)", len(frees), 1)
     if record is None:
         R.undecided("R19-b", "triple-shape", "no (pointer, length, capacity) record built from one String found in register_file or its helpers", loc=reg.loc())
@@ -346,8 +346,11 @@ def r19b(P, R):
         y.get("k") == "Field" and y.get("field") == dl for y in subnodes(c["recv"]))] + \
            [c for c in dropi.walk() if c.get("k") == "Call" and (call_name(c) or "").endswith(("mem::take", "mem::replace")) and any(
                y.get("k") == "Field" and y.get("field") == dl for y in subnodes(c))]
+    raii = ld.record_adt is not None and any(P.fns[d_].self_adt == ld.record_adt.path for d_ in ld.owner_drops)
     if len(cons) == 1:
         R.holds("R19-b", "drain-once", "Drop consumes the list (`%s`): each entry is freed once" % (cons[0].get("method") or "take"), loc=drop.loc())
+    elif raii and not cons:
+        R.holds("R19-b", "drain-once", "each entry of %s frees its own buffer in its Drop: once, when the list is cleared or dropped with the task" % dl, loc=drop.loc())
     else:
         R.undecided("R19-b", "drain-once", "Drop does not consume %s through exactly one drain/take/pop (%d found)" % (dl, len(cons)), loc=drop.loc())
     # EXACT-CAPACITY INVARIANT: into_boxed_str() after recording is safe only if capacity == len for every String reaching register_file
@@ -507,8 +510,11 @@ def r19d(P, R):
     """total task lookup: unknown/freed ids give an error result, never a trap"""
     ld = Loader(P)
     T, TS = ld.task.path, ld.tasks.path
-    get_task, get_task_mut = ld.method(ld.tasks, "get_task"), ld.method(ld.tasks, "get_task_mut")
-    getters = {get_task.path, get_task_mut.path}
+    # the accessors that hand out a reference to one task for an id (get_task/get_task_mut, or whatever they are called)
+    getters = {g.path for g in P.fns.values() if _live(g) and g.self_adt == TS and g.kind == "AssocFn" and keyed_accessor(P, ld, g.path)
+               and any((g.sig_output or "").replace("&mut ", "&").find("&" + T + e_) >= 0 for e_ in (">", ",", ")", " "))}
+    if not getters:
+        raise AnchorMissing("no method of `%s` hands out a task for an id" % TS)
     for name in ("get_required_files", "load_file", "emit_js"):
         f0 = ld.logic(name)
         f = inlined(P, f0, pred=lambda g: g.path not in getters)
@@ -544,10 +550,16 @@ def r19d(P, R):
         R.check("R19-d", "isolation:" + name, not wide, "only the addressed task is touched (the table is used through accessors keyed by the task id)",
                 "%s also uses the task table through %s, which is not a lookup of one task by its id" % (f0.path, wide), loc=f0.loc())
     # the accessors are plain map lookups keyed by the id
-    for acc_, m in (("get_task", "get"), ("get_task_mut", "get_mut"), ("remove_task", "remove")):
-        f = ld.method(ld.tasks, acc_)
+    removers = {g.path for g in P.fns.values() if _live(g) and g.self_adt == TS and g.kind == "AssocFn" and keyed_accessor(P, ld, g.path)
+                and g.path not in getters and T in (g.sig_output or "") and any(t == "usize" for t in g.sig_inputs) and not any(peel_ty(t).split("<")[0] == T for t in g.sig_inputs)}
+    for path_ in sorted(getters | removers):
+        f = P.fns[path_]
+        if any((call_name(c) or "") in getters | removers for c in f.walk() if c.get("k") == "MethodCall"):
+            continue   # a wrapper over another accessor (require_task over get_task): judged there
+        acc_ = f.name
+        m = "get/get_mut/remove"
         pv = Prov(f)
-        cs = [c for c in f.walk() if c.get("k") == "MethodCall" and c["method"] == m and "HashMap" in norm(c.get("recv_ty", ""))]
+        cs = [c for c in f.walk() if c.get("k") == "MethodCall" and c["method"] in ("get", "get_mut", "remove") and "HashMap" in norm(c.get("recv_ty", ""))]
         traps = [x["method"] for x in f.walk() if x.get("k") == "MethodCall" and x["method"] in ("unwrap", "expect")] + \
                 [1 for x in f.walk() if x.get("k") == "Index"]
         id_params = {pv.params.get(p.get("local")) for p, t in zip(f.params, f.sig_inputs) if p.get("k") == "Binding" and t == "usize"}
